@@ -10,14 +10,13 @@ import traceback
 import z3
 
 from symx import core, files, replay
-from symx.core import Engine, Inconclusive, Unsupported, bvval
+from symx.core import Engine, Inconclusive, SymBool, Unsupported, bvval
 
 VERIF = os.path.dirname(os.path.dirname(os.path.abspath(__file__)))
 REPLAYS = os.path.join(VERIF, "replays")
 KNOWN_FILE = os.path.join(VERIF, "known_findings.json")
 
-Z3NS = {k: getattr(z3, k) for k in ("URem", "UDiv", "ULT", "ULE", "UGT", "UGE", "LShR", "And", "Or", "Not", "If",
-                                       "Extract", "ZeroExt", "BoolVal")}
+REGION_NS = dict(And=core.sym_and, Or=core.sym_or, Not=core.sym_not, ite=core.ite, min=core.sym_min, max=core.sym_max)
 
 
 def load_known(prop):
@@ -32,16 +31,16 @@ def load_known(prop):
 class Scenario:
     """What a path needs in order to turn a model into a run of the real code.
 
-    vars:    name -> BV term (reported in samples, usable in known-finding regions)
+    vars:    name -> SymInt/int (reported in samples, usable in known-finding regions)
     build:   model -> replay description (without 'expect')
     expect:  (model, desc) -> expectation dict computed from the oracle on the concrete image
-    extra:   list of BV constraints that make a model realisable/replayable (sizes small enough etc.)
+    extra:   hard realisability constraints (SymBool); prefer: soft ones that keep the image small
     """
 
     def __init__(self, vars, build, expect, extra=(), prefer=()):
         self.vars, self.build, self.expect = vars, build, expect
-        self.extra = list(extra)    # hard realisability constraints
-        self.prefer = list(prefer)  # soft: keep the image small enough to replay quickly
+        self.extra = list(extra)
+        self.prefer = list(prefer)
 
 
 class TaskResult(dict):
@@ -52,6 +51,10 @@ class TaskResult(dict):
                          samples=[], funcs=[], lines=[], wall_s=0.0, exceptions={}, exhausted=0, notes=[])
 
 
+def _overlap_bools(apps):
+    return [SymBool(b, i) for b, i in replay.no_partial_overlap(apps)]
+
+
 class Ctx:
     """Per-task context handed to the harness body."""
 
@@ -60,12 +63,14 @@ class Ctx:
         self.known = [k for k in load_known(prop) if k.get("harness") in (None, harness)]
         self.res = TaskResult(prop, harness, cfg)
         self.E = Engine(name=f"{prop}:{harness}", **(engine_kw or {}))
+        if cfg.get("decide"):
+            self.E.decide_first = cfg["decide"]
         self.E.path_hooks.append(self._reset)
         self.scenario = None
         self.path_no = 0
         self.witness_stride = 1 if tier == "thorough" else int(cfg.get("witness_stride", 6))
         self.max_witnesses = cfg.get("max_witnesses", 400 if tier == "thorough" else 12)
-        self.replay_in_process = None  # callable(desc) -> (verdict, detail) for fast witness runs
+        self.replay_in_process = generic_in_process
         self.t0 = time.time()
 
     def _reset(self):
@@ -85,32 +90,34 @@ class Ctx:
             when = k.get("when", {})
             if any(self.cfg.get(a) != b for a, b in when.items()):
                 continue
-            ns = dict(Z3NS)
+            ns = dict(REGION_NS)
             ns.update(sc.vars if sc else {})
-            ns["V"] = bvval
             ns["cfg"] = self.cfg
             try:
-                out.append((k, eval(k["region"], {"__builtins__": {}}, ns)))  # noqa: S307 - committed file
+                r = eval(k["region"], {"__builtins__": {}}, ns)  # noqa: S307 - committed file, never written at run time
+                out.append((k, r))
             except Exception as ex:  # noqa: BLE001
                 self.res["errors"].append(f"known finding {k.get('id')}: region not evaluable here: {ex}")
         return out
 
     # ---- replay helpers ---------------------------------------------------------------------------------
-    def _solve_realisable(self, *cons):
+    def _solve_realisable(self, cons):
+        """model of pc /\\ cons /\\ hard realisability (/\\ soft preferences when possible), or None"""
         sc = self.scenario
         extra = list(sc.extra) if sc else []
         try:
-            extra += replay.no_partial_overlap(self.E.apps)
+            extra += _overlap_bools(self.E.apps)
         except Exception as ex:  # noqa: BLE001
             self.res["notes"].append(f"overlap constraints skipped: {ex}")
+        conds = list(cons) + extra
         if sc and sc.prefer:
             try:
-                m = self.E.bv_solve(*cons, *extra, *sc.prefer)
+                m = self.E.decide_case(True, conds + list(sc.prefer))
             except Inconclusive:
                 m = None
             if m is not None:
                 return m
-        return self.E.bv_solve(*cons, *extra)
+        return self.E.decide_case(True, conds)
 
     def _describe(self, model, why):
         sc = self.scenario
@@ -123,7 +130,7 @@ class Ctx:
         desc["vars"] = {}
         for k, t in sc.vars.items():
             try:
-                desc["vars"][k] = replay.model_int(model, t)
+                desc["vars"][k] = mi(model, t)
             except Exception:  # noqa: BLE001
                 pass
         return desc
@@ -146,34 +153,36 @@ class Ctx:
 
     # ---- obligations ------------------------------------------------------------------------------------
     def obligation(self, bad, what):
-        """`bad` (BV-side Bool term) must be unsatisfiable together with the path condition."""
+        """`bad`: a SymBool/bool, or a list of them (a case split of one obligation); each must be unsatisfiable
+        together with the path condition."""
         self.res["obligations"] += 1
+        bads = list(bad) if isinstance(bad, (list, tuple)) else [bad]
         regions = self._regions()
-        neg = [z3.Not(r) for _, r in regions]
-        m = self.E.bv_solve(bad, *neg)
-        if m is None:
-            if regions and self.E.bv_solve(bad) is not None:
-                # every counterexample lies inside listed regions
-                hit = [k for k, r in regions if self.E.bv_solve(bad, r) is not None]
-                for k in hit:
-                    if k["id"] not in self.res["known"]:
-                        self.res["known"].append(k["id"])
-                self.res["discharged"] += 1
-                return True
-            self.res["discharged"] += 1
-            return True
-        # a counterexample outside every known region: make it realisable and replay it on the real code
-        try:
-            mr = self._solve_realisable(bad, *neg)
-        except Inconclusive:
-            mr = None
-        if mr is None:
-            self.res["unrealisable"] += 1
-            self.res["notes"].append(f"{what}: counterexample exists only for overlapping/unreplayable layouts")
-            self.res["discharged"] += 1
-            return True
-        self._triage(mr, what)
-        return False
+        neg = [core.sym_not(r) for _, r in regions]
+        for b in bads:
+            m = self.E.decide_case(b, neg)
+            if m is None:
+                continue
+            # a counterexample outside every known region: make it realisable and replay it on the real code
+            try:
+                mr = self._solve_realisable([b] + neg)
+            except Inconclusive:
+                mr = None
+            if mr is None:
+                self.res["unrealisable"] += 1
+                self.res["notes"].append(f"{what}: counterexample exists only for overlapping/unreplayable layouts")
+                continue
+            self._triage(mr, what)
+            return False
+        if regions:
+            for b in bads:
+                if self.E.decide_case(b) is not None:
+                    # every counterexample lies inside listed regions
+                    for k, r in regions:
+                        if self.E.decide_case(b, [r]) is not None and k["id"] not in self.res["known"]:
+                            self.res["known"].append(k["id"])
+        self.res["discharged"] += 1
+        return True
 
     def _triage(self, model, what, expect_override=None):
         try:
@@ -201,21 +210,20 @@ class Ctx:
         name = type(ex).__name__
         self.res["exceptions"][name] = self.res["exceptions"].get(name, 0) + 1
         if self.scenario is None:
-            self.res["errors"].append(f"exception before the scenario was set: {name}: {ex}")
+            self.res["errors"].append(f"exception before the scenario was set: {name}: {ex} @ {_where(ex)}")
             return
-        what = f"raises {name}: {str(ex)[:120]}"
+        what = f"raises {name}: {str(ex)[:120]} @ {_where(ex)}"
         self.res["obligations"] += 1
         regions = self._regions()
-        neg = [z3.Not(r) for _, r in regions]
-        m = self.E.bv_solve(*neg) if neg else True
-        if m is None:
+        neg = [core.sym_not(r) for _, r in regions]
+        if neg and self.E.decide_case(True, neg) is None:
             for k, r in regions:
-                if self.E.bv_solve(r) is not None and k["id"] not in self.res["known"]:
+                if self.E.decide_case(True, [r]) is not None and k["id"] not in self.res["known"]:
                     self.res["known"].append(k["id"])
             self.res["discharged"] += 1
             return
         try:
-            mr = self._solve_realisable(*neg)
+            mr = self._solve_realisable(neg)
         except Inconclusive:
             mr = None
         if mr is None:
@@ -231,7 +239,7 @@ class Ctx:
             return
         what = f"unwinding bound exceeded: {ex}"
         self.res["obligations"] += 1
-        mr = self._solve_realisable()
+        mr = self._solve_realisable([])
         if mr is None:
             self.res["unrealisable"] += 1
             self.res["discharged"] += 1
@@ -250,8 +258,9 @@ class Ctx:
             if self.path_no != 1 and (self.path_no + self.seed) % self.witness_stride != 0:
                 return
         try:
-            m = self._solve_realisable()
+            m = self._solve_realisable([])
         except Inconclusive:
+            self.res["notes"].append("witness skipped: solver timeout")
             return
         if m is None:
             return
@@ -271,7 +280,11 @@ class Ctx:
             verdict2, detail2 = self._run(desc, in_process=False)
             if verdict2 == "violation":
                 regions = self._regions()
-                inside = [k for k, r in regions if z3.is_true(m.eval(r, model_completion=True))]
+                inside = []
+                for k, r in regions:
+                    rv = r if isinstance(r, bool) else z3.is_true(m.eval(r.bv, model_completion=True))
+                    if rv:
+                        inside.append(k)
                 if inside:
                     for k in inside:
                         if k["id"] not in self.res["known"]:
@@ -319,7 +332,7 @@ class Ctx:
         self.res.update(paths=st["paths"], feasible_paths=st["feasible_paths"], decisions=st["decisions"],
                         solver_s=round(st["int_s"] + st["bv_s"], 2), int_checks=st["int_checks"],
                         bv_checks=st["bv_checks"], wall_s=round(time.time() - self.t0, 2), int_s=round(st["int_s"], 2),
-                        bv_s=round(st["bv_s"], 2))
+                        bv_s=round(st["bv_s"], 2), int_decides=st.get("int_decides", 0))
         if cov:
             self.res["funcs"] = sorted(cov.funcs)
             self.res["lines"] = sorted(cov.lines)
@@ -337,13 +350,22 @@ def _where(ex):
     return frames[-1] if frames else "?"
 
 
-def byte_obligation(res, j, explen_bv, spec_val):
-    """bad := length differs, or byte j (< expected length) differs."""
+def byte_obligation(res, j, explen, spec_val, extra=()):
+    """Case split of 'the result differs from the specification': the length differs, or for some segment k
+    byte j lies in segment k and differs. j/explen/spec_val: SymInt/int. Returns a list of SymBool/bool cases."""
     from symx.sbytes import SymBytes
 
     res = SymBytes.lift(res)
-    impl_val, total = res.byte_term(j)
-    return z3.Or(total != explen_bv, z3.And(j >= bvval(0), j < explen_bv, impl_val != spec_val))
+    cases = []
+    pos = 0
+    inrange = core.sym_and(j >= 0, j < explen)
+    for s in res.segs:
+        v = res._seg_byte(s, j - pos)
+        cases.append(core.sym_and(inrange, j >= pos, j < pos + s.length, v != spec_val))
+        pos = pos + s.length
+    cases.insert(0, pos != explen)
+    cases.extend(extra)
+    return [c for c in cases if c is not False]
 
 
 # ---- helpers shared by the read-path harnesses ------------------------------------------------------------
@@ -368,11 +390,11 @@ def generic_in_process(desc):
     """Run a replay description on the real code inside this process (fast path for witnesses)."""
     from symx import replay_entries, replay_runner  # noqa: F401
 
-    fs = {k: replay_runner.mkfile(v, name=v.get("name")) for k, v in desc["files"].items()}
-    op = {k: replay_runner.mkfile(v) for k, v in desc.get("opaque", {}).items()}
+    fs = {k: replay_entries.mkfile(v, name=v.get("name")) for k, v in desc["files"].items()}
+    op = {k: replay_entries.mkfile(v) for k, v in desc.get("opaque", {}).items()}
     exp = desc["expect"]
     try:
-        obj = replay_runner.OPENERS[desc["entry"]](fs, op, desc["params"])
+        obj = replay_entries.OPENERS[desc["entry"]](fs, op, desc["params"])
         res = replay_runner.do_call(obj, desc["call"])
     except MemoryError as ex:
         return "error", f"replay too large: {ex}"
@@ -402,45 +424,54 @@ def files_desc(model, apps, seed, names=("img",), size=1 << 70, labels=None, siz
 
 
 def read_scenario(ctx, E, vars_, *, entry, params, call, total, g0, spec_at, unit, rng, names=("img",), opaque=(),
-                  prefer=(), j=None, extra_units=(), post_files=None, sizes=None):
+                  prefer=(), extra=(), j=None, extra_units=(), post_files=None, sizes=None):
     """Scenario for a read request.
-    params/call/total/g0: callables(model) -> JSON value / int; spec_at(model, g:int, env) -> z3 BV8 term with concrete g."""
+    params/call/total/g0: callables(model) -> JSON value / int;
+    spec_at(model, g:int, mems, opaques) -> int: the oracle evaluated concretely on the image."""
+    from oracles.mem import ConcMem
+
     seed = ctx.seed
 
     def build(model):
         fd = files_desc(model, E.apps, seed, names, sizes=sizes)
-        if post_files:
-            post_files(model, fd)
         d = dict(entry=entry, params=params(model), files=fd, call=call(model))
         if opaque:
             d["opaque"] = {n: dict(size=1 << 70, seed=(seed & 0xFFFF) + 977 + 13 * i) for i, n in enumerate(opaque)}
+        if post_files:
+            post_files(model, d)
         return d
 
     def expect(model, desc):
-        from symx import replay_runner
+        from symx import replay_entries
 
-        fs = {k: replay_runner.mkfile(v) for k, v in desc["files"].items()}
-        op = {k: replay_runner.mkfile(v) for k, v in desc.get("opaque", {}).items()}
-        env = replay.ConcreteEnv({}, fs, op, inflate=desc.get("_inflate_fns", {}))
+        infl = desc.pop("_inflate", None)
+        mems = {k: ConcMem(replay_entries.mkfile(v), inflate=infl) for k, v in desc["files"].items()}
+        ops = {k: ConcMem(replay_entries.mkfile(v)) for k, v in desc.get("opaque", {}).items()}
         tot = total(model)
         mj = None
         if j is not None:
             try:
-                mj = replay.model_int(model, j)
+                mj = mi(model, j)
             except Exception:  # noqa: BLE001
                 mj = None
         base = g0(model)
         out = []
         for jj in sample_positions(rng, tot, unit, mj, extra_units) if tot > 0 else []:
-            out.append([jj, replay.ceval(spec_at(model, base + jj, env), env)])
-        desc.pop("_inflate_fns", None)
+            out.append([jj, int(spec_at(model, base + jj, mems, ops))])
         return dict(len=tot, bytes=out)
 
-    return Scenario(vars_, build, expect, prefer=list(prefer))
+    return Scenario(vars_, build, expect, extra=list(extra), prefer=list(prefer))
 
 
 def mi(model, x):
-    """model value of an int-like (SymInt / int)"""
-    if isinstance(x, int):
-        return x
-    return replay.model_int(model, core.bv(x))
+    """model value of an int-like (SymInt / int / z3 BV term)"""
+    if isinstance(x, (bool, int)):
+        return int(x)
+    if isinstance(x, (core.SymInt, core.SymBool)):
+        v = replay.model_int(model, core.bv(x))
+        if isinstance(x, core.SymInt) and x.lo < 0:
+            W = core.S.W
+            if isinstance(v, int) and v >= (1 << (W - 1)):
+                v -= 1 << W
+        return v
+    return replay.model_int(model, x)
